@@ -136,3 +136,36 @@ package config
 //@   loop 1 invariant fwdsub - old(fwdsub) == recvcount(c.subCh) - old(recvcount(c.subCh)) - len(subscribed) && fwdunsub - old(fwdunsub) == recvcount(c.unsubCh) - old(recvcount(c.unsubCh)) - len(unsubscribed) && len(subscribed) + len(unsubscribed) >= 1
 //@   loop 1 invariant (forall k int :: 0 <= k && k < len(subscribed) ==> subscribed[k] == sentat(c.subCh, recvcount(c.subCh) - len(subscribed) + k)) && (forall k int :: 0 <= k && k < len(unsubscribed) ==> unsubscribed[k] == sentat(c.unsubCh, recvcount(c.unsubCh) - len(unsubscribed) + k))
 //@   loop 1 invariant (cap(subscribed) == 0 || fresh(subscribed)) && (cap(unsubscribed) == 0 || fresh(unsubscribed)) && disjoint(subscribed, unsubscribed)
+
+// ---- C08: services of the bootstrap file are tracked and announced as they are written there --------------------
+
+//@ func (*Config).initStaticSvcs
+//@   prop C08
+//@   requires c != nil && c.evtCh != nil && c.sws != nil && c.Bootstrap != nil
+//@   modifies mapof(c.sws), sent(c.evtCh)
+//@   callpre emitSvcAddEvent @every-static-service-is-tracked-and-announced-as-written arg0 == c && arg1 != nil && arg1.Service != nil && rangeindex + 1 < len(c.StaticServices) && arg1.Service.Name == c.StaticServices[rangeindex + 1].Name && arg1.Config == c.StaticServices[rangeindex + 1].Config && sameslice(arg1.Endpoints, c.StaticServices[rangeindex + 1].Endpoints) && has(c.sws, arg1.Service.Name) && c.sws[arg1.Service.Name] == arg1
+//@   loop 0 invariant c.sws == old(c.sws) && c.evtCh == old(c.evtCh) && c.Bootstrap == old(c.Bootstrap)
+
+//@ func (*Config).Subscribe
+//@   prop C08
+//@   requires c != nil
+//@   modifies nothing
+//@   ensures @the-event-channel result == c.evtCh
+
+// ---- C16: the client keeps retrying until its context ends; a new stream starts with the resubscription ---------
+
+//@ func (*svcDiscoveryClient).Run
+//@   prop C16
+//@   requires c != nil
+//@   modifies all
+//@   callpre run @every-round-opens-a-stream-with-the-same-context arg0 == c && arg1 == ctx
+//@   ensures @gives-up-only-when-the-context-is-done waitedfor(ctxdone(ctx))
+
+//@ func (*svcDiscoveryClient).run
+//@   prop C16
+//@   requires c != nil
+//@   modifies all
+//@   callpre resubscribe @a-new-stream-starts-with-the-resubscription arg0 == c
+//@   assume @before:resubscribe c.subscribed != nil
+//@   callpre loopSend @changes-are-sent-only-after-the-resubscription arg0 == c
+//@   assume @before:loopSend c.subCh != nil && c.unsubCh != nil && c.subCh != c.unsubCh && stream != nil
